@@ -725,11 +725,10 @@ func (env *SpecEnv) muAddr(e *SExpr) string {
 		if s != nil && isPtr {
 			for i := 0; i < s.NumFields(); i++ {
 				if s.Field(i).Name() == e.Name {
-					return fc.fieldAddr(env.st(), base, i, token.NoPos).T
+					return fc.muFieldAddr(env.st(), base, owner, i)
 				}
 			}
 		}
-		_ = owner
 	}
 	v := env.eval(e)
 	if _, ok := v.Ty.Underlying().(*types.Pointer); ok {
